@@ -8,7 +8,7 @@ from ..source import get_source, ClassInfo
 from ..grammar import get_grammar
 from ..emission import get_emission
 from ..callgraph import get_callgraph, stores_of, raises_of
-from ..paths import parent_map, path_conditions, executed_before
+from ..paths import parent_map, path_conditions, executed_before, enclosing_stmt
 from ..symeval import Code, Part, CellV
 from .common import library_exceptions, iter_parts, borrow
 
@@ -144,33 +144,38 @@ def r1(run: Run, src, g, em, cg):
 
 
 def r2(run: Run, src, cg):
+    from .common import normalized_method, flat_conditions
     lib = library_exceptions(src)
     ct = src.cls('CellTranslator')
-    fi = ct.methods.get('_set_cell_to_context')
-    if fi is None:
-        raise AnalysisError('C03.R2', 'CellTranslator._set_cell_to_context not found')
-    fn = fi.node
+    fi, fn = normalized_method(src, 'CellTranslator', '_set_cell_to_context')
     parents = parent_map(fn)
     descents = [n for n in ast.walk(fn) if isinstance(n, ast.Call) and isinstance(n.func, ast.Attribute) and
                 ((n.func.attr == 'parse' and isinstance(n.func.value, ast.Name) and n.func.value.id in ('Lexer', 'AstBuilder')) or
                  (n.func.attr == 'translate' and isinstance(n.func.value, ast.Name) and 'Translator' in n.func.value.id))]
     if len(descents) < 3:
         raise AnalysisError('C03.R2', f'expected the descent calls Lexer.parse, AstBuilder.parse and a translator, found {len(descents)}')
-    # candidate marker calls: context.<m>(cell) whose callee tests membership -> raises parser exception, then stores
+    # candidate marker calls: <context>.<m>(cell) whose callee tests membership -> raises parser exception, then stores
+    ctx_cls = src.cls('Context')
     markers = []
-    for s in cg.sites.get(fi.key, []):
-        for t in s.targets:
-            if t.cls is None or t.cls.name != 'Context':
-                continue
-            tests = [n for n in ast.walk(t.node) if isinstance(n, ast.If) and any(isinstance(c, ast.Compare) and
-                     isinstance(c.ops[0], ast.In) for c in ast.walk(n.test)) and any(e in lib for e, _ in raises_of(ast.Module(body=n.body, type_ignores=[])))]
-            stores = [st for st in stores_of(t.node) if st.kind in ('subscript', 'mutating-call') and st.base == 'self']
-            if tests and stores:
-                same = any(ast.unparse(c.comparators[0]) in st.target for n in tests for c in ast.walk(n.test)
-                           if isinstance(c, ast.Compare) for st in stores)
-                order = min(n.lineno for n in tests) < min(st.node.lineno for st in stores)
-                if same and order:
-                    markers.append((s, t))
+    for n in ast.walk(fn):
+        if not (isinstance(n, ast.Call) and isinstance(n.func, ast.Attribute) and isinstance(n.func.value, ast.Name)):
+            continue
+        t = ctx_cls.methods.get(n.func.attr)
+        if t is None or n.func.value.id in ('cls', 'self', ct.name):
+            continue
+        tests = [x for x in ast.walk(t.node) if isinstance(x, ast.If) and any(isinstance(c, ast.Compare) and
+                 isinstance(c.ops[0], ast.In) for c in ast.walk(x.test)) and any(e in lib for e, _ in raises_of(ast.Module(body=x.body, type_ignores=[])))]
+        stores = [st for st in stores_of(t.node) if st.kind in ('subscript', 'mutating-call') and st.base == 'self']
+        if tests and stores:
+            same = any(ast.unparse(c.comparators[0]) in st.target for x in tests for c in ast.walk(x.test)
+                       if isinstance(c, ast.Compare) for st in stores)
+            order = min(x.lineno for x in tests) < min(st.node.lineno for st in stores)
+            if same and order:
+                class _S:
+                    pass
+                s_ = _S()
+                s_.node = n
+                markers.append((s_, t))
     run.check(bool(markers), 'C03.R2', 'CellTranslator._set_cell_to_context/marker', 'no-in-progress-marker',
               'no call on the formula branch marks the cell as in progress (membership test that raises the parser exception on '
               're-entry, followed by a store keyed by the cell): cyclic references recurse until RecursionError',
@@ -182,18 +187,22 @@ def r2(run: Run, src, cg):
     while mstmt is not None and not isinstance(mstmt, ast.stmt):
         mstmt = parents.get(mstmt)
     # every call that can re-enter this function (call graph) is a descent, whatever it is called
-    for s_ in cg.sites.get(fi.key, []):
-        if s_.node in descents or s_ is markers[0][0]:
+    for n in ast.walk(fn):
+        if not (isinstance(n, ast.Call) and isinstance(n.func, ast.Attribute) and isinstance(n.func.value, ast.Name)) or n in descents \
+                or n is mcall:
             continue
-        for t_ in s_.targets:
-            if t_.cls is not None and t_.cls.name == 'Context':
-                continue
-            try:
-                back = fi.key in cg.reachable([t_])
-            except Exception:
-                back = False
-            if back and s_.node not in descents:
-                descents.append(s_.node)
+        owner = ct.name if n.func.value.id in ('cls', 'self') else n.func.value.id
+        if not src.has_cls(owner) or owner == 'Context':
+            continue
+        t_ = src.find_method(src.cls(owner), n.func.attr)
+        if t_ is None:
+            continue
+        try:
+            back = fi.key in cg.reachable([t_])
+        except Exception:
+            back = False
+        if back:
+            descents.append(n)
     # the marker is keyed by the identity of the cell: sheet, column and row (the uid), not by a part of it
     callee0 = markers[0][1]
     cparam = [p_ for p_ in callee0.params if p_ not in ('self', 'cls')]
@@ -245,21 +254,30 @@ def r2(run: Run, src, cg):
               f'a cycle is reported with {sorted(rs)}; the property names the library\'s parser exception', fact='E2PyclParserException',
               loc=loc_of(callee.module.path, callee.node))
     # the marker is keyed by the cell's uid / function name
-    arg_ok = mcall.args and isinstance(mcall.args[0], ast.Name) and mcall.args[0].id == fi.params[1]
+    arg_ok = mcall.args and isinstance(mcall.args[0], ast.Name) and mcall.args[0].id.split('__i')[0] == fi.params[1]
     run.check(bool(arg_ok), 'C03.R2', '_set_cell_to_context/marker-argument', 'marker-argument',
               f'the marker is called with `{ast.unparse(mcall.args[0])[:30] if mcall.args else "?"}`, not with the cell being translated',
               fact='marker(cell)', loc=loc_of(fi.module.path, mcall))
-    # memo test guards the whole translation branch and set_cell follows
-    memo = [n for n in ast.walk(fn) if isinstance(n, ast.If) and 'get_cell' in ast.unparse(n.test)]
-    ok = len(memo) == 1 and isinstance(memo[0].test, ast.UnaryOp) and all(
-        any(p is memo[0] for p in _ancestors(d, parents)) for d in descents)
+    # memo test: every descent is reached only when the cell has no translation yet; the code is registered afterwards
+    def under_memo(node):
+        return any('get_cell' in ast.unparse(t) and pol is False for t, pol in flat_conditions(path_conditions(fn, node, parents)))
+    ok = all(under_memo(d) for d in descents)
     run.check(ok, 'C03.R2', '_set_cell_to_context/memo', 'memo-test',
               'the descent is not guarded by "the cell has no translation yet": shared precedents are re-translated (exponential) '
-              'or translated under a different state', fact='if not context.get_cell(cell): ...', loc=loc_of(fi.module.path, fn))
+              'or translated under a different state', fact='reached only if not context.get_cell(cell)', loc=loc_of(fi.module.path, fn))
     setc = [n for n in ast.walk(fn) if isinstance(n, ast.Call) and isinstance(n.func, ast.Attribute) and n.func.attr == 'set_cell']
-    ok = len(setc) == 1 and any(p is memo[0] for p in _ancestors(setc[0], parents)) if memo else False
-    run.check(ok, 'C03.R2', '_set_cell_to_context/set_cell', 'not-registered', 'the translated code is not registered with the context',
-              fact='context.set_cell(cell, code)', loc=loc_of(fi.module.path, fn))
+    trans = [d for d in descents if d.func.attr == 'translate']
+    def precedes(d, sc):
+        before = executed_before(fn, sc, parents)
+        a = enclosing_stmt(d, parents)
+        while a is not None and a is not fn:
+            if a in before:
+                return True
+            a = parents.get(a)
+        return False
+    ok = any(all(precedes(d, sc) for d in trans) and under_memo(sc) for sc in setc)
+    run.check(ok, 'C03.R2', '_set_cell_to_context/set_cell', 'not-registered', 'the translated code is not registered with the context '
+              'after the formula was translated', fact='context.set_cell(cell, code) after the descent', loc=loc_of(fi.module.path, fn))
 
 
 def _ancestors(node, parents):
